@@ -50,6 +50,10 @@ def attr_census(facts):
         for a in it.get("attrs", []):
             if PROFILE_CFG.search(a) and not it.get("test"):
                 hits.append(("mod " + it["name"], a, it["l"]))
+    # predicates the extractor evaluated (and removed from the tree it hands on): engines/ast-extract/src/cfgstrip.rs
+    for r in F.cfg_records(facts):
+        if PROFILE_CFG.search(r["pred"]) and r["on"] != "cfg!":
+            hits.append(("%s: %s" % (r["file"], r["on"]), "cfg(%s)" % r["pred"], r["l"]))
     return hits
 
 
@@ -61,6 +65,9 @@ def macro_census(facts):
                 hits.append((fn.key, x["name"] + "!"))
             if x["name"] == "cfg" and PROFILE_CFG.search(x.get("raw", "")):
                 hits.append((fn.key, "cfg!(%s)" % x.get("raw")))
+    for r in F.cfg_records(facts):
+        if PROFILE_CFG.search(r["pred"]) and r["on"] == "cfg!":
+            hits.append((r["file"], "cfg!(%s)" % r["pred"]))
     return hits
 
 
